@@ -62,9 +62,18 @@ const (
 	c16APIGrain = 2
 )
 
-// c16Timeout: request k times out after 10s+3k s. Virtual time only moves in steps of 10 s (event
-// "adv"), so two request timers never expire at the same instant (deterministic firing order).
-func c16Timeout(k int) time.Duration { return c16AdvStep + time.Duration(3*k)*time.Second }
+// c16Timeouts: per-request timeouts (10 s, 13 s, 17 s; reversed when cfg.tmoRev). Virtual time only
+// moves by the event "adv" (sleep until the earliest deadline of a pending call) and requests are only
+// issued at time 0 or at such a deadline, so two pending calls never share a deadline (all sums of
+// one or two of the values are distinct): timers fire one by one, in a deterministic order.
+var c16Timeouts = [c16MaxReq]time.Duration{10 * time.Second, 13 * time.Second, 17 * time.Second}
+
+func (c c16Cfg) timeout(k int) time.Duration {
+	if c.tmoRev {
+		return c16Timeouts[c.nReq-1-k]
+	}
+	return c16Timeouts[k]
+}
 
 type c16Msg struct {
 	kind string // go | m | cancel | then (to R)   req (to S)   rep (reply)
@@ -86,6 +95,7 @@ type c16Cfg struct {
 	cancelTurn  bool // Cancel() is called from inside R's turn (message) instead of from the client goroutine
 	lateThen    bool // Then is registered by a later message ("then k") instead of by the issuing handler
 	clientStop  bool // offer PID.Shutdown from the client goroutine in addition to PoisonPill
+	tmoRev      bool // later requests have the shorter timeout
 	horizon     int
 	bound       int
 }
@@ -119,6 +129,7 @@ type c16World struct {
 	accepted [c16MaxReq]bool
 	thenSet  [c16MaxReq]bool
 	rejected [c16MaxReq]string
+	deadline [c16MaxReq]time.Time
 	cbCount  [c16MaxReq]int
 	cbRes    [c16MaxReq]string
 	nextReq  int
@@ -253,7 +264,12 @@ func (a *c16Requester) Receive(rctx *ReceiveContext) {
 		w.thenSet[msg.id] = true
 		w.mu.Unlock()
 		if call != nil && !already {
+			// If the call has completed already, Then runs the continuation synchronously inside this
+			// handler (documented): that is still R's turn, and the "other open invocation" is this
+			// handler itself, so it steps aside for the duration of the Then call.
+			w.open.Add(-1)
 			call.Then(a.continuation(msg.id))
+			w.open.Add(1)
 		}
 	}
 }
@@ -268,7 +284,8 @@ func (a *c16Requester) issue(rctx *ReceiveContext) {
 	if k >= cfg.nReq {
 		return
 	}
-	opts := []RequestOption{WithRequestTimeout(c16Timeout(k))}
+	opts := []RequestOption{WithRequestTimeout(cfg.timeout(k))}
+	deadline := time.Now().Add(cfg.timeout(k))
 	switch cfg.override[k] {
 	case 1:
 		opts = append(opts, WithReentrancyMode(reentrancy.AllowAll))
@@ -295,9 +312,11 @@ func (a *c16Requester) issue(rctx *ReceiveContext) {
 	} else {
 		w.accepted[k] = true
 		w.calls[k] = call
+		w.deadline[k] = deadline
 		all, _ := w.outstandingLocked()
+		stop := w.stopReq
 		w.mu.Unlock()
-		if cfg.maxInFlight > 0 && !cfg.lateThen && all > cfg.maxInFlight {
+		if cfg.maxInFlight > 0 && !cfg.lateThen && !stop && all > cfg.maxInFlight {
 			w.fail("in-flight-limit-exceeded", "call %d accepted: %d calls outstanding, limit %d", k, all, cfg.maxInFlight)
 		}
 		if !cfg.lateThen {
@@ -481,7 +500,7 @@ func c16Run(t *testing.T, cfg c16Cfg, c *vsched.Chooser) vsched.Outcome {
 		reent := r.reentrancy.Load()
 		vfSettle()
 
-		goTold, mTold, advs, seq := 0, 0, 0, 0
+		goTold, mTold, seq := 0, 0, 0
 		cancelFired := [c16MaxReq]bool{}
 		thenTold := [c16MaxReq]bool{}
 		var shutdownDone atomic.Bool
@@ -510,10 +529,14 @@ func c16Run(t *testing.T, cfg c16Cfg, c *vsched.Chooser) vsched.Outcome {
 		for step := 0; step < cfg.horizon; step++ {
 			w.mu.Lock()
 			stopped := w.stopReq
-			var haveCall, thenSet [c16MaxReq]bool
+			var haveCall [c16MaxReq]bool
+			var nextDeadline time.Time
+			now := time.Now()
 			for k := range w.calls {
 				haveCall[k] = w.calls[k] != nil
-				thenSet[k] = w.thenSet[k]
+				if w.accepted[k] && w.cbCount[k] == 0 && w.deadline[k].After(now) && (nextDeadline.IsZero() || w.deadline[k].Before(nextDeadline)) {
+					nextDeadline = w.deadline[k]
+				}
 			}
 			w.mu.Unlock()
 			var evs []c16Event
@@ -541,8 +564,8 @@ func c16Run(t *testing.T, cfg c16Cfg, c *vsched.Chooser) vsched.Outcome {
 			if len(evs) == 0 {
 				evs = append(evs, c16Event{"finish", 0, nil})
 			}
-			if advs < 2 {
-				evs = append(evs, c16Event{"adv", 1, func() { advs++; time.Sleep(c16AdvStep) }})
+			if !nextDeadline.IsZero() {
+				evs = append(evs, c16Event{"adv", 1, func() { time.Sleep(nextDeadline.Sub(now)) }})
 			}
 			for k := 0; k < cfg.nReq; k++ {
 				if haveCall[k] && !cancelFired[k] && (!cfg.cancelTurn || !stopped) {
@@ -627,7 +650,7 @@ func c16Run(t *testing.T, cfg c16Cfg, c *vsched.Chooser) vsched.Outcome {
 				}
 			}
 		}
-		for i := 0; i < 4; i++ { // past every request deadline: pending timer goroutines fire or have been stopped
+		for i := 0; i < 6; i++ { // past every request deadline: pending timer goroutines fire or have been stopped
 			time.Sleep(c16AdvStep)
 			vfSettle()
 			invariants()
@@ -694,7 +717,15 @@ func c16Run(t *testing.T, cfg c16Cfg, c *vsched.Chooser) vsched.Outcome {
 					continue
 				}
 				if e.seq < last {
-					w.fail("held-messages-out-of-arrival-order", "held message %s (arrival #%d) was handled after held message %s (arrival #%d)", e.key, e.seq, lastKey, last)
+					// e arrived before lastKey but is handled after it. If e went through more stash
+					// rounds than lastKey it was released behind a later arrival that was already waiting in
+					// the mailbox and then held again (own signature); otherwise both were released by
+					// the same unstash, in the wrong order.
+					sig := "held-messages-out-of-arrival-order"
+					if per[e.key].deq > per[lastKey].deq {
+						sig = "held-message-requeued-behind-later-arrival"
+					}
+					w.fail(sig, "held message %s (arrival #%d, dequeued %d times) was handled after held message %s (arrival #%d, dequeued %d times)", e.key, e.seq, per[e.key].deq, lastKey, last, per[lastKey].deq)
 				}
 				if e.seq > last {
 					last, lastKey = e.seq, e.key
@@ -739,23 +770,66 @@ func c16Run(t *testing.T, cfg c16Cfg, c *vsched.Chooser) vsched.Outcome {
 func TestVerifC16(t *testing.T) {
 	defer vsched.Finish(t)
 	r := vsched.Rep()
-	_ = r
+	r.Assumption("events are separated by quiescence: the order of R's mailbox is the order of the events; simultaneous arrivals are produced by holding R's first 'go' handler (after it issued its request) and by the gated responders")
+	r.Assumption("requester shutdown: only 'at most one continuation per call', the turn rules and 'counters are zero at the end' are demanded once a stop has been requested (goakt cancels pending calls on shutdown without running their continuations)")
+	r.Assumption("a message is 'held' iff R's mailbox handed it out without its handler being entered (observed through a logging UnboundedMailbox wrapper installed with WithMailbox); arrival order = order of the single client's Tells")
 	A, S := reentrancy.AllowAll, reentrancy.StashNonReentrant
-	mk := func(name string, def reentrancy.Mode, max int, hold bool) c16Cfg {
+	type opt func(*c16Cfg)
+	mk := func(name string, def reentrancy.Mode, max int, hold bool, opts ...opt) c16Cfg {
 		c := c16Cfg{name: name, defMode: def, maxInFlight: max, hold: hold, nReq: 2, nMsg: 2,
 			horizon: vsched.Pick(6, 8), bound: vsched.Pick(1, 2)}
 		c.api = [c16MaxReq]int{c16APIPid, c16APIName, c16APIPid}
+		if max >= 2 {
+			c.nReq, c.nMsg = 3, 1
+			c.horizon = vsched.Pick(6, 8)
+		}
+		for _, o := range opts {
+			o(&c)
+		}
 		return c
 	}
+	mode := map[reentrancy.Mode]string{A: "allowall", S: "stash"}
 	var cfgs []c16Cfg
-	cfgs = append(cfgs, mk("allowall-max0", A, 0, false), mk("stash-max0", S, 0, false),
-		mk("allowall-max0-hold", A, 0, true), mk("stash-max0-hold", S, 0, true))
+	for _, m := range []reentrancy.Mode{A, S} {
+		for _, max := range []int{0, 1, 2} {
+			for _, hold := range []bool{false, true} {
+				n := fmt.Sprintf("%s-max%d", mode[m], max)
+				if hold {
+					n += "-hold"
+				}
+				cfgs = append(cfgs, mk(n, m, max, hold))
+			}
+		}
+	}
+	for _, hold := range []bool{false, true} {
+		sfx := map[bool]string{false: "", true: "-hold"}[hold]
+		// per-call overrides: default AllowAll with one StashNonReentrant call and vice versa
+		cfgs = append(cfgs,
+			mk("allowall-call1stash"+sfx, A, 0, hold, func(c *c16Cfg) { c.override[1] = 2; c.tmoRev = true }),
+			mk("allowall-call0stash"+sfx, A, 0, hold, func(c *c16Cfg) { c.override[0] = 2 }),
+			mk("stash-call1allowall"+sfx, S, 0, hold, func(c *c16Cfg) { c.override[1] = 1; c.tmoRev = true }),
+			mk("stash-call0allowall"+sfx, S, 2, hold, func(c *c16Cfg) { c.override[0] = 1; c.nReq, c.nMsg = 2, 2 }),
+			// Cancel() from inside R's turn
+			mk("allowall-cancelturn"+sfx, A, 0, hold, func(c *c16Cfg) { c.cancelTurn = true }),
+			mk("stash-cancelturn"+sfx, S, 0, hold, func(c *c16Cfg) { c.cancelTurn = true; c.tmoRev = true }),
+			// Then registered by a later message
+			mk("allowall-latethen"+sfx, A, 0, hold, func(c *c16Cfg) { c.lateThen = true; c.nMsg = 1 }),
+			// RequestGrain (responder 0 is a grain)
+			mk("allowall-grain"+sfx, A, 1, hold, func(c *c16Cfg) { c.api[0] = c16APIGrain; c.tmoRev = true }),
+			mk("stash-grain"+sfx, S, 0, hold, func(c *c16Cfg) { c.api[0] = c16APIGrain; c.api[1] = c16APIGrain }),
+			// PID.Shutdown from the client goroutine in addition to PoisonPill
+			mk("allowall-clientstop"+sfx, A, 0, hold, func(c *c16Cfg) { c.clientStop = true; c.nMsg = 1 }),
+			mk("stash-clientstop"+sfx, S, 0, hold, func(c *c16Cfg) { c.clientStop = true; c.nMsg = 1 }),
+		)
+	}
 	var scs []vsched.Scenario
 	for _, cfg := range cfgs {
 		cfg := cfg
 		scs = append(scs, vsched.Scenario{
-			Cfg: vsched.Config{Scenario: "c16-" + cfg.name, Bound: cfg.bound, SplitDepth: 3,
-				Params: map[string]any{"horizon": cfg.horizon, "maxInFlight": cfg.maxInFlight, "nReq": cfg.nReq, "nMsg": cfg.nMsg, "hold": cfg.hold}},
+			Cfg: vsched.Config{Scenario: "c16-" + cfg.name, Bound: cfg.bound, SplitDepth: 2,
+				Params: map[string]any{"horizon": cfg.horizon, "maxInFlight": cfg.maxInFlight, "nReq": cfg.nReq, "nMsg": cfg.nMsg, "hold": cfg.hold,
+					"default_mode": mode[cfg.defMode], "override": fmt.Sprint(cfg.override[:cfg.nReq]), "api": fmt.Sprint(cfg.api[:cfg.nReq]),
+					"cancel_in_turn": cfg.cancelTurn, "late_then": cfg.lateThen, "client_shutdown": cfg.clientStop, "timeouts_reversed": cfg.tmoRev}},
 			Run: func(c *vsched.Chooser) vsched.Outcome { return c16Run(t, cfg, c) },
 		})
 	}
